@@ -25,6 +25,10 @@ RULE = (
     "has been rendered with str/repr/traceback. Non-trivial = attribute "
     "name is special-cased by some rule and the module is not that rule's module; distinct = "
     "distinct byte strings."
+    ' Also: the report at every verbosity, before and after a truth test of the summary and a'
+    ' rendering of the error, the report the library writes to a file, mutating opcodes / BUILD on'
+    ' literals of every kind, names that are format templates or hold unpaired surrogates / NUL /'
+    ' bidi controls.'
 )
 ASSUMPTIONS = [
     "a program fickling refuses to decompile (parse/interpret/unparse raises) is outside the "
